@@ -1,5 +1,6 @@
 import BeyondVerif.Model.DateCfg
 import BeyondVerif.Model.CcsdsDate
+import BeyondVerif.Model.DateIter
 /-!
 Kernel-checked witnesses for C04, on C03's model of `Date` with two days of IERS values (2015-03-03 / 04: UT1−UTC =
 −0.5295713 s and −0.5306080 s, TAI−UTC = 35 s).
@@ -133,6 +134,29 @@ theorem same_day_shortcut_keeps_wrong_record :
 /-- the record found at the TAI clock reading 00:00:10 is not the record of the UTC reading 23:59:35 of the same instant -/
 theorem eop_day_own_scale_depends_on_label :
     eopRaw env2 (us10 * 10) = some ⟨350000000, -5306080⟩ ∧ eopRaw env2 (us10 * 10 - 350000000) = some ⟨350000000, -5295713⟩ := by
+  decide
+
+/-! ### 4. an index of nodes keyed by the clock reading -/
+
+/-- a tabulated point: noon UTC; the request: the date that SHOWS noon under the label TAI (35 s earlier); the same
+request relabelled UTC (shows 11:59:25) -/
+def nodeU : Except Err Date := ofDatetime cfg env2 utc usNoon
+def reqT : Except Err Date := ofDatetime cfg env2 tai usNoon
+def reqU : Except Err Date := bind reqT (fun q => changeScale cfg env2 q utc)
+
+def lookupBy {κ : Type} [DecidableEq κ] (key : Date → κ) (q : Except Err Date) : Option (Option Nat) :=
+  match nodeU, q with
+  | .ok n, .ok x => some (nodeLookup key [(n, 1)] x)
+  | _, _ => none
+
+/-- regression witness (seeded change C04-m8: `DatedInterp` hands back the recorded value of a node found in an index
+keyed by `Date.datetime`): the TAI-labelled request is 35 s before the node and is taken for it; the same instant
+labelled UTC is not; keyed by `_datetime` (what `hash(Date)` uses) neither is -/
+theorem reading_key_confuses_labels :
+    instOf reqT = (instOf nodeU).map (· - 350000000) ∧ instOf reqU = instOf reqT ∧
+    lookupBy Date.datetime reqT = some (some 1) ∧ lookupBy Date.datetime reqU = some none ∧
+    lookupBy Date.hashKey reqT = some none ∧ lookupBy Date.hashKey reqU = some none ∧
+    lookupBy Date.hashKey nodeU = some (some 1) := by
   decide
 
 end BeyondVerif.C04W
